@@ -61,6 +61,43 @@ def bootstrap():
 # ------------------------------------------------------------------------------------------------
 # per-run context
 # ------------------------------------------------------------------------------------------------
+class LineAbort:
+    """Fault injector: raises SimAbort when the k-th LINE of library code (files under <repo>/gcmpy) is about to execute -
+    a crash / interrupt at an arbitrary point, not only at the points the simulator owns (draws, callbacks, operands)."""
+
+    def __init__(self, at):
+        self.at = at
+        self.n = 0
+        self.fired = False
+        self.root = os.path.join(os.path.realpath(REPO), "gcmpy") + os.sep
+
+    def _local(self, frame, event, arg):
+        if event == "line":
+            if self.n == self.at and not self.fired:
+                self.fired = True
+                sys.settrace(None)
+                raise SimAbort(f"injected abort at library line event {self.at} ({os.path.basename(frame.f_code.co_filename)}:{frame.f_lineno})")
+            self.n += 1
+        return self._local
+
+    def _global(self, frame, event, arg):
+        if self.fired:
+            return None
+        fn = frame.f_code.co_filename
+        if fn.startswith(self.root) or os.path.realpath(fn).startswith(self.root):
+            return self._local
+        return None
+
+    def __enter__(self):
+        self.prev = sys.gettrace()
+        sys.settrace(self._global)
+        return self
+
+    def __exit__(self, *exc):
+        sys.settrace(self.prev)
+        return False
+
+
 class Violation:
     __slots__ = ("clause", "detail", "finding")
 
@@ -150,18 +187,24 @@ class Ctx:
         self.faults[kind] += n
 
     # run one library operation --------------------------------------------------------------
-    def call(self, src, fn, *args, budget=None, abort_at=None, label=None, **kw):
-        """Returns (status, value): ok | abort | budget | fault | raised | hang."""
+    def call(self, src, fn, *args, budget=None, abort_at=None, abort_at_line=None, label=None, **kw):
+        """Returns (status, value): ok | abort | budget | fault | raised | hang.
+        abort_at: abort at the k-th RNG decision; abort_at_line: abort at the k-th executed line of library code."""
         self.operations += 1
         start = len(src.log)
         src.begin_op(budget=budget, abort_at=abort_at)
         status, value = "ok", None
+        line_abort = LineAbort(abort_at_line) if abort_at_line is not None else None
         try:
             with simrandom.using(src):
-                value = fn(*args, **kw)
+                if line_abort is not None:
+                    with line_abort:
+                        value = fn(*args, **kw)
+                else:
+                    value = fn(*args, **kw)
         except SimAbort:
             status = "abort"
-            self.fault("abort_at_decision")
+            self.fault("abort_at_line" if (line_abort is not None and line_abort.fired) else "abort_at_decision")
         except SimBudget:
             status = "budget"
         except SimHang:
